@@ -31,7 +31,8 @@ pub const CHARSET_LABELS: [&str; 69] = [
     "replacement", "iso-2022-cn", "", "\"utf-8\"", "utf-7", "x-no-such", "\"", "\"\"", "'", "\"utf-8", "utf-8\"",
 ];
 
-const DEGENERATE_TARGETS: [&[u8]; 22] = [
+const DEGENERATE_TARGETS: [&[u8]; 25] = [
+    b"/?X-Amz-Signature=abc", b"/?X-Amz-Signature=", b"/x?X-Amz-Signature=a&X-Amz-Signature=b",
     b"*", b"example.com:443", b"/", b"/?", b"/??", b"/?&", b"/?=", b"/?=&=", b"/%00", b"/..", b"/../..", b"/%2e%2e/%2e%2e", b"//", b"///", b"/.", b"/./.", b"/%", b"/%4", b"/%zz",
     b"/?%", b"/?a=%zz", b"http://example.com",
 ];
@@ -1149,7 +1150,7 @@ fn c19_world(t: &mut Tape, forced: Option<(usize, bool)>) -> RunOut {
         let kinds: &[&str] = if header {
             &["authorization", "hdr-param:Credential", "hdr-param:Signature", "hdr-param:SignedHeaders", "x-amz-date", "date-beside-x-amz-date", "x-amz-date-beside-date", "token", "both-carriers"]
         } else {
-            &["qp:X-Amz-Credential", "qp:X-Amz-Signature", "qp:X-Amz-SignedHeaders", "qp:X-Amz-Date", "qp:X-Amz-Algorithm", "qp:X-Amz-Security-Token", "both-carriers"]
+            &["qp:X-Amz-Credential", "qp:X-Amz-Signature", "qp:X-Amz-SignedHeaders", "qp:X-Amz-Date", "qp:X-Amz-Algorithm", "qp:X-Amz-Security-Token", "both-carriers", "qp-body:X-Amz-Date", "qp-body:X-Amz-Credential"]
         };
         let drawn_kind = t.below(kinds.len());
         let kind = kinds[forced.map(|f| f.0 % kinds.len()).unwrap_or(drawn_kind)];
@@ -1235,6 +1236,29 @@ fn c19_world(t: &mut Tape, forced: Option<(usize, bool)>) -> RunOut {
                 m.quirks.other_carrier_alg = [None, Some("AWS4-ECDSA-P256-SHA256".to_string()), Some(String::new()), Some("aws4-hmac-sha256".to_string())][t.below(4)].clone();
                 accept = Some(false);
                 resign = false;
+            }
+            k if k.starts_with("qp-body:") => {
+                // folding node: the URL carries the real parameter, the form body a differing
+                // duplicate (and more names than the URL has); body parameters count as appended
+                // to the URL query, so the URL's value is the first one
+                if node.cfg.fold && m.logical.form_pairs.is_none() && m.logical.body.is_empty() && !m.logical.headers.iter().any(|(n, _)| n == "content-type") {
+                    let name = &k["qp-body:".len()..];
+                    let bogus: Vec<u8> = if name == "X-Amz-Date" {
+                        refm::compact_utc(m.auth.instant_ns - 12 * 3600 * refm::NS).into_bytes()
+                    } else {
+                        format!("AKIDOTHER/{}/{}/{}/aws4_request", m.auth.scope_date, m.auth.region, m.auth.service).into_bytes()
+                    };
+                    let mut form: refm::Pairs = vec![(name.as_bytes().to_vec(), bogus)];
+                    for i in 0..(m.logical.url_pairs.len() + 8) {
+                        form.push((format!("filler{}", i).into_bytes(), b"1".to_vec()));
+                    }
+                    let mut bt = Tape::replay(vec![]);
+                    m.logical.body = render_form_body(&form, &mut bt, 0);
+                    m.logical.form_pairs = Some(form);
+                    m.logical.headers.push(("content-type".into(), b"application/x-www-form-urlencoded".to_vec()));
+                    m.auth.fold = true;
+                    accept = Some(true);
+                }
             }
             k if k.starts_with("qp:") => {
                 // the first value of a repeated X-Amz-* query parameter is authenticated
@@ -1430,11 +1454,17 @@ fn c13_build(m0: &Message, atoms: &[Atom], accounts: &[Account], node: &Node, va
                 true
             }
             "prov-error" => {
-                script.answer = if lt.chance(3) {
+                let a = if lt.chance(3) {
                     Answer::Foreign(lt.below(libi::FOREIGN_KINDS.len()))
                 } else {
                     Answer::SigErr(lt.below(libi::SIG_ERR_KINDS.len()))
                 };
+                if lt.chance(3) {
+                    // the failure is reported when the provider is asked whether it is ready
+                    script.ready_err = Some(a);
+                } else {
+                    script.answer = a;
+                }
                 true
             }
             "cred-region" | "cred-service" | "cred-term" | "cred-date" | "cred-access-key" | "sig-digit" | "sig-length" => faults::apply_logical(a.name, &mut m, &cx, &mut lt).is_some(),
@@ -1477,7 +1507,12 @@ fn c13_case(mi: usize, m0: &Message, atoms: &[Atom], accounts: &Vec<Account>, no
         let tw = c13_build(&m0, &twin_atoms, &accounts, &node, 1);
         let eval = |b: &Built, out: &mut RunOut| -> Option<(Verdict, ValOut, Vec<libi::Event>)> {
             let req = b.wire.to_request().ok()?;
-            let mut rp = libi::reference_provider(&accounts, &b.script.answer);
+            let failing = Answer::Foreign(0);
+            let mut rp = libi::reference_provider(&accounts, if b.script.ready_err.is_some() {
+                &failing
+            } else {
+                &b.script.answer
+            });
             let (v, _) = refm::rverdict(&req, &node.cfg, b.now_ns, &mut rp);
             drop(rp);
             let shared = Arc::new(Mutex::new(libi::Shared::new(accounts.clone(), shared_level)));
